@@ -40,5 +40,5 @@ ENTRY["go_tools"] = list(ENTRY.get("go_tools", [])) + ["extract-qbftconst"]
 ENTRY["translators"] = list(ENTRY.get("translators", [])) + [_qc]
 ENTRY["lean_props_extra"].append("CharonV.Props.C04Limits")
 ENTRY["streams"] = ENTRY["streams"] + [dict(_E05["streams"][0], seeds_quick=1)]
-ENTRY["monitor_sigs"] = ENTRY["monitor_sigs"] + ["qbftwire:honest_message_rejected"]
+ENTRY["monitor_sigs"] = ENTRY["monitor_sigs"] + ["qbftwire:honest_message_rejected", "qbftwire:honest_message_not_constructible"]
 ENTRY["trusted_base"] = ENTRY["trusted_base"] + ["translator T-const (extract-qbftconst): the factor of verifyMsgLimits' justification bound, statement shape checked, fails closed"]
